@@ -57,7 +57,51 @@ def _vals(x):
     return [core.canon(v) for v in x]
 
 
+def _two_environments(ctx):
+    """Two differently customised environments in one process asked the same query text through their environment-level entry
+    points, in both orders: each must agree with its own compiled query (whatever the other one compiled before)."""
+    import jsonpath
+
+    class CaseInsensitive(jsonpath.JSONPathEnvironment):
+        def getitem(self, obj, key):
+            if isinstance(obj, dict) and isinstance(key, str):
+                for k, v in obj.items():
+                    if isinstance(k, str) and k.lower() == key.lower():
+                        return v
+                raise KeyError(key)
+            return super().getitem(obj, key)
+
+    class Renamed(jsonpath.JSONPathEnvironment):
+        union_token = "&"
+        intersection_token = "|"
+
+    class Untyped(jsonpath.JSONPathEnvironment):
+        def __init__(self):
+            super().__init__(well_typed=False)
+
+    doc = {"foo": {"bar": [1, 2, 3]}, "FOO": {"BAR": [4]}, "a": [1, 2], "b": [2, 3]}
+    texts = ["$.foo.bar[0] | $.FOO.bar[1]", "$.FOO.bar[*]", "$.a[*] | $.b[*]", "$.a[*] & $.b[*]", "$[?count(@.*)]", "$.foo.BAR[0]"]
+    for order in (0, 1):
+        envs = [jsonpath.JSONPathEnvironment(), CaseInsensitive(), Renamed(), Untyped(), jsonpath.JSONPathEnvironment()]
+        if order:
+            envs.reverse()
+        for t in texts:
+            for e in envs:
+                own = core.outcome(lambda: e.compile(t).findall(copy.deepcopy(doc)))
+                for name, fn in (("findall", lambda: e.findall(t, copy.deepcopy(doc))), ("finditer", lambda: [m.obj for m in e.finditer(t, copy.deepcopy(doc))]),
+                                 ("match", lambda: (lambda m: [] if m is None else [m.obj])(e.match(t, copy.deepcopy(doc)))), ("query", lambda: list(e.query(t, copy.deepcopy(doc)).values()))):
+                    r = core.outcome(fn)
+                    want = own.get("ok") if name != "match" else (own.get("ok") or [])[:1]
+                    ctx.count("two-environments")
+                    if ("err" in r) != ("err" in own) or ("ok" in r and r["ok"] != want):
+                        ctx.violation("the environment-level entry points must agree with the environment's own compiled query, whatever other environments compiled before",
+                                      {"text": t, "doc": doc, "environment": type(e).__name__, "entry": name}, r.get("ok", r.get("err")), want if "ok" in own else own.get("err"))
+
+
 def evaluate(ctx, cases):
+    if not getattr(ctx, "_two_envs_done", False):
+        ctx._two_envs_done = True
+        _two_environments(ctx)
     import jsonpath
 
     reqs, meta = [], []
